@@ -159,3 +159,20 @@ theorem putUvarint_canonical (n : Nat) : Canonical (putUvarint n) := by
       rw [toUInt8_toNat (by omega)]; omega
 
 end Avro
+
+namespace Avro
+
+/-- decoding inverts encoding for every 64-bit value, whatever follows (also stated as `C17.varint_roundtrip`) -/
+theorem readVarint_writeVarint (v : Int) (hv : inRange 64 v) (rest : Bytes) :
+    readVarint (writeVarint v ++ rest) = .ok (v, rest) := by
+  unfold readVarint writeVarint
+  rw [readUvarint_put (zigzag_lt hv)]
+  simp [unzig_zigzag]
+
+theorem inRange_of_nat_lt {n : Nat} (h : n < 2 ^ 63) : inRange 64 (n : Int) := by
+  unfold inRange; omega
+
+theorem takeN_append' (a rest : Bytes) : takeN a.length (a ++ rest) = some (a, rest) := by
+  unfold takeN; simp
+
+end Avro
